@@ -84,7 +84,7 @@ package factory
 //@ func (*defaultFactory).createComponent
 //@ property C01 C02 C03 C05 C09
 // A-CALLBACK: what a post-processor hands back in place of a component is itself a component object (not a reflect.Value / reflect.Type)
-//@ assume before call CreateProxy: [substitute-is-a-component] PlainComponent(instantiation)
+//@ assume before call CreateProxy: [substitute-is-a-component] PlainComponent(_arg2)
 //@ requires [inv] FInv(f)
 //@ requires [marked-with-hole] Reg(f).IC[name] && Reg(f).HasHole && Reg(f).Hole == name
 //@ assigns RegFrame(Reg(f)), CreationFrame()
@@ -208,7 +208,7 @@ package factory
 
 //@ func (*defaultFactory).getEarlyBeanReference
 //@ property C03 C01
-//@ assume before call genProxyComponent: [substitute-is-a-component] PlainComponent(exposedComponent)
+//@ assume before call genProxyComponent: [substitute-is-a-component] PlainComponent(_arg2)
 //@ requires [wired] FWired(f) && ProcsOK(f.postProcessorRegistrationDelegate) && name != ""
 //@ requires [meta-built] MetaOK(m)
 //@ assigns RTop, Failed
@@ -218,7 +218,7 @@ package factory
 //@ ensures [unwrapped-is-same-meta] implies(result1 == nil && result0 != m, fresh(result0) && result0.ProxyMeta == m && len(result0.Dependent) == 0)
 // exposed: (ghost, local to this function) what the post-processors handed back for the early reference
 //@ ghost local exposed any
-//@ ghost after call GetEarlyBeanReference: exposed = exposedComponent
+//@ ghost after call GetEarlyBeanReference: exposed = _result0
 //@ ensures [substituted-reference-is-wrapped] implies(result1 == nil, result0.Raw == exposed && implies(exposed == m.Raw, result0 == m))
 //@ ensures [failure-surfaces] implies(result1 == nil, Failed == old(Failed))
 
@@ -263,7 +263,7 @@ package factory
 
 //@ func (*defaultFactory).doCreateComponent
 //@ property C01 C02 C03 C05 C09
-//@ assume before call genProxyComponent: [substitute-is-a-component] PlainComponent(wrappedInstance)
+//@ assume before call genProxyComponent: [substitute-is-a-component] PlainComponent(_arg2)
 //@ requires [inv] FInv(f)
 //@ requires [marked-with-hole] Reg(f).IC[name] && Reg(f).HasHole && Reg(f).Hole == name
 //@ requires [fresh-attempt] St[name] == 0 && MetaOK(meta) && name != ""
